@@ -296,7 +296,11 @@ func (pm *PermanodeMeta) valuesAtSigner(at time.Time,
 		m = pm.attr
 	}
 	if at.IsZero() {
-		return m, true
+		// The zero time means now, as in the slow path
+		// (claimsIntfAttrValue, AppendPermanodeAttrValues,
+		// PermanodeHasAttrValue): claims dated in the future
+		// are not in effect yet.
+		at = time.Now()
 	}
 	if n := len(pm.Claims); n == 0 || !pm.Claims[n-1].Date.After(at) {
 		return m, true
